@@ -65,10 +65,22 @@ def unindented_comment_in_block(v: core.Violation, sess: Any, op: Optional[dict]
     return False
 
 
+def letter_flag_glued_to_account(v: core.Violation, sess: Any, op: Optional[dict]) -> bool:
+    """A posting flag that is a letter, directly followed by the account: lexes as one account name."""
+    if sess is None:
+        return False
+    toks = [t for t in sess.root.token_store if t.raw_text]
+    for a, b in zip(toks, toks[1:]):
+        if isinstance(a, models.PostingFlag) and a.raw_text.isalpha() and isinstance(b, models.Account):
+            return True
+    return False
+
+
 PREDICATES: dict[str, Callable[[core.Violation, Any, Optional[dict]], bool]] = {
     'number_comma_digit_hazard': number_comma_digit_hazard,
     'slash_number_currency_hazard': slash_number_currency_hazard,
     'unindented_comment_in_block': unindented_comment_in_block,
+    'letter_flag_glued_to_account': letter_flag_glued_to_account,
 }
 
 _OPEN: Optional[list[dict]] = None
